@@ -189,3 +189,99 @@ def recv_canon(nf: NF, cfg, mi, node, call: ast.Call) -> str:
     sc = Scope(cfg, mi, {}, "recv")
     sc.inline_self_attrs = False   # `self.x` names the attribute, not the value last assigned to it
     return nf.poly(call.func.value, sc, node.id).canon()
+
+
+# ---------------------------------------------------------------------------------------------------------------------------
+# boolean structure: truth tables over order / equality atoms (finite, no solver)
+def _bool_atoms(nf: NF, e, sc, at, atoms: dict):
+    """Translate a boolean expression into a nested tuple formula.  Leaves: ("rel", op, a, b) with op in {"lt", "eq"} over canonical
+    operand texts (a <= b == not (b < a), a > b == b < a, a >= b == not (a < b)), or ("atom", text) for anything else."""
+    if isinstance(e, ast.BoolOp):
+        return ("and" if isinstance(e.op, ast.And) else "or", tuple(_bool_atoms(nf, v, sc, at, atoms) for v in e.values))
+    if isinstance(e, ast.UnaryOp) and isinstance(e.op, ast.Not):
+        return ("not", _bool_atoms(nf, e.operand, sc, at, atoms))
+    if isinstance(e, ast.Name) and sc.cfg is not None and at is not None and e.id not in sc.opaque_names:
+        rhs = sc.cfg._expand_name(e, at)
+        if rhs is not None:
+            return _bool_atoms(nf, rhs, sc, at, atoms)
+    if isinstance(e, ast.Compare) and len(e.ops) >= 1:
+        parts = [e.left] + list(e.comparators)
+        conj = []
+        for i, op in enumerate(e.ops):
+            a, b = nf.poly(parts[i], sc, at).canon(), nf.poly(parts[i + 1], sc, at).canon()
+            if isinstance(op, ast.Lt):
+                f = ("rel", "lt", a, b)
+            elif isinstance(op, ast.Gt):
+                f = ("rel", "lt", b, a)
+            elif isinstance(op, ast.LtE):
+                f = ("not", ("rel", "lt", b, a))
+            elif isinstance(op, ast.GtE):
+                f = ("not", ("rel", "lt", a, b))
+            elif isinstance(op, (ast.Eq, ast.NotEq)):
+                f = ("rel", "eq", a, b)
+                if isinstance(op, ast.NotEq):
+                    f = ("not", f)
+            else:
+                f = ("atom", nf.poly(ast.Compare(left=parts[i], ops=[op], comparators=[parts[i + 1]]), sc, at).canon())
+            conj.append(f)
+        return conj[0] if len(conj) == 1 else ("and", tuple(conj))
+    c = nf.poly(e, sc, at).canon()
+    if isinstance(e, ast.BinOp) and isinstance(e.op, ast.Mod):
+        return ("not", ("rel", "eq", "0", c))     # truthiness of x % k
+    return ("atom", c)
+
+
+def _leaves(f):
+    if f[0] in ("atom", "rel"):
+        return [f]
+    if f[0] == "not":
+        return _leaves(f[1])
+    return [x for g in f[1] for x in _leaves(g)]
+
+
+def _eval(f, val):
+    if f[0] == "atom":
+        return val[("atom", f[1])]
+    if f[0] == "rel":
+        a, b = f[2], f[3]
+        key = ("pair",) + tuple(sorted((a, b)))
+        st = val[key]            # '<' : first < second (sorted order), '=' , '>'
+        if a > b:
+            st = {"<": ">", ">": "<", "=": "="}[st]
+        return st == "<" if f[1] == "lt" else st == "="
+    if f[0] == "not":
+        return not _eval(f[1], val)
+    if f[0] == "and":
+        return all(_eval(g, val) for g in f[1])
+    return any(_eval(g, val) for g in f[1])
+
+
+def bool_equiv(nf: NF, mi, e1, e2, cfg1=None, at1=None, cfg2=None, at2=None, max_atoms: int = 8, env1=None, env2=None, opaque1=(), opaque2=()):
+    """True / False when the two boolean expressions agree in every world, where a world fixes, for each compared pair of operands,
+    one of  a < b, a == b, a > b  (trichotomy) and a truth value for every other atom; None when the two sides are built from
+    different operand pairs / atoms (not comparable by this finite model)."""
+    import itertools
+    s1, s2 = Scope(cfg1, mi, env1 or {}, "b1"), Scope(cfg2, mi, env2 or {}, "b2")
+    s1.opaque_names, s2.opaque_names = set(opaque1), set(opaque2)
+    f1 = _bool_atoms(nf, e1, s1, at1, {})
+    f2 = _bool_atoms(nf, e2, s2, at2, {})
+
+    def keys(f):
+        out = set()
+        for l in _leaves(f):
+            out.add(("atom", l[1]) if l[0] == "atom" else ("pair",) + tuple(sorted((l[2], l[3]))))
+        return out
+    k1, k2 = keys(f1), keys(f2)
+    allk = sorted(k1 | k2)
+    if len(allk) > max_atoms:
+        return None
+    doms = [("<", "=", ">") if k[0] == "pair" else (True, False) for k in allk]
+    same = True
+    for combo in itertools.product(*doms):
+        val = dict(zip(allk, combo))
+        if _eval(f1, val) != _eval(f2, val):
+            same = False
+            break
+    if same:
+        return True
+    return False if k1 == k2 else None
